@@ -2,6 +2,7 @@
 target's trace_arguments (read from the working tree at run time) plus naming-stress programs."""
 
 TARGETS = ["python", "numpy", "stablehlo", "xla_client", "cpp"]
+TEXT_ONLY_TARGETS = ["lax"]  # no listed property is about their content; C09 covers their determinism
 
 
 def context_params(target):
@@ -142,6 +143,7 @@ STRESS_SIGS = {
     "stablehlo": {"float": [":float"], "complex": [":complex"]},
     "xla_client": {"float": [":float"], "complex": [":complex"]},
     "cpp": {"float": [":float32", ":float64"], "complex": [":complex64", ":complex128"]},
+    "lax": {"float": [":float32", ":float64"], "complex": [":complex64"]},
 }
 
 
@@ -151,10 +153,10 @@ def get_func(fa, name):
     return getattr(fa.algorithms, name)
 
 
-def build_universe(fa):
+def build_universe(fa, extra_targets=()):
     """List of request descriptors: dict(target, func, sig (list of str), sigidx)."""
     out = []
-    for t in TARGETS:
+    for t in list(TARGETS) + list(extra_targets):
         mod = getattr(fa.targets, t, None)
         ta = getattr(mod, "trace_arguments", None)
         if not isinstance(ta, dict):
